@@ -33,10 +33,11 @@ NOT PROVED (named gaps, exercised by the harness only):
 --   per frame the output contains the complete trajectories whatever detections are withheld
 --   after the first frame; and it equals detect-then-link when nothing is withheld.  (Statements
 --   about which local maxima blob images have; asserted by the harness in the `sep` regime.)
--- FULL (not proved): bg_radius_covers — `∀ b ∈ hash, b ∉ queryPoints cfg hash pos → ∀ c within
---   search_range of a source, 1 ≤ dist2 sep c b` (triangle inequality between the search-range and
---   separation ellipsoids, `bgRadiusAx = slice_radius + max(radius+1, separation)`).  Replaced by
---   the run-time check `uncovered = []` on every replayed call.
+(`bg_radius_covers`, formerly a named gap replaced by the run-time check `uncovered = []`, is now
+a theorem: `Props/C14Bg.lean` — `bg_radius_covers`, `uncovered_eq_nil`, `reloc_clear_of_hash_all`.
+The labelling is no longer judged by the shadow relation alone: `Model/FindLinkAlgo.lean` models
+one `FindLinker.next_level`, and `Props/C14Algo.lean` proves the clauses about that model and that
+`flStep`/`flRun` below accept its output on every input.)
 -/
 namespace TrackpyV.Relocate
 open TrackpyV.Find
